@@ -1,5 +1,5 @@
 (** Correspondence for the scope family: Scope/Interp.v vs the real ScopeManager. *)
-From Selene Require Export Corr.Common Scope.Interp Scope.Zones Lints.ScopeLints Scope.Fragment.
+From Selene Require Export Corr.Common Scope.Interp Scope.Zones Lints.ScopeLints Scope.GFragment.
 
 Record iref := { i_range : range; i_name : string; i_read : bool; i_write : option wkind;
                  i_resolved : option range; i_initial : bool }.
@@ -72,7 +72,7 @@ Definition check_case (c : case) : N * N :=
                          match l with [] => true | r :: rest => negb (existsb (Zones.range_eq r) rest) && nd rest end) ranges in
       ((bit (negb corr) 1 + bit (negb distinct) 2 + N.lor (fst z1) (N.lor (fst z2) (fst z3)))%N,
        (* known-class masks per property: C01 in bits 0-9, C02 in bits 10-19, C03 in bits 20-29 *)
-       (snd z1 + 1024 * snd z2 + 1048576 * snd z3 + bit (ok_block chunk) 1099511627776)%N)
+       (snd z1 + 1024 * snd z2 + 1048576 * snd z3 + bit (gok_block chunk) 1099511627776)%N)
   | CScopePanic chunk =>
       match scope_manager chunk with Some _ => (1%N, 0%N) | None => (0%N, 0%N) end
   end.
